@@ -560,7 +560,8 @@ PyObject *CPyTagged_Str(CPyTagged n) {
     if (CPyTagged_CheckShort(n)) {
         return CPyTagged_ShortToStr(CPyTagged_ShortAsSsize_t(n));
     } else {
-        return PyObject_Str(CPyTagged_AsObject(n));
+        // Borrowed reference: CPyTagged_AsObject would return a new reference that nobody releases
+        return PyObject_Str(CPyTagged_LongAsObject(n));
     }
 }
 
@@ -576,7 +577,10 @@ PyObject *CPyTagged_AsciiBytes(CPyTagged n) {
     if (CPyTagged_CheckShort(n)) {
         return CPyTagged_ShortToAsciiBytes(CPyTagged_ShortAsSsize_t(n));
     }
-    PyObject *str = PyObject_Str(CPyTagged_AsObject(n));
+    PyObject *str = PyObject_Str(CPyTagged_LongAsObject(n));
+    if (str == NULL) {
+        return NULL;
+    }
     PyObject *bytes = PyUnicode_AsASCIIString(str);
     CPy_DECREF(str);
     return bytes;
